@@ -149,7 +149,7 @@ type SchemaCtx struct {
 func (c *SchemaCtx) AddIssue(e *ZogIssue) {
 	if c.CanCatch {
 		c.Exit = true
-		FreeIssue(e)
+		// the issue is dropped, not handed to the pool: it may be the caller's own object (a *ZogIssue returned by a PostTransform)
 		return
 	}
 	c.ExecCtx.AddIssue(e)
